@@ -19,6 +19,7 @@ func TestMain(m *testing.M) {
 	vh.Rule("also: three queues (two receive sides, one transmit side) used in turns by a generated schedule; slices handed out by Bytes keep their content over later operations")
 	vh.Rule("also: the caller treats slices returned by Bytes as its own memory (changes every byte, appends to them): later reads, also after a restore, still return the enqueued bytes")
 	vh.Rule("also: a failed Bytes / Read hands out all the bytes it consumed (n counts them)")
+	vh.Rule("also: packets enqueued, everything read, then typed and untyped writes: what was written reads back from where the reads ended, and everything from the start (known finding: empty enqueued packets behind the position)")
 	vh.Main(m, "C15")
 }
 
